@@ -59,6 +59,11 @@ func (s *solo) checkPeerQ(q *peerQ) {
 				// results ready: answer.Return has already stripped the cap
 				// table the pipeline caller reads
 				sig = "C06/call-not-delivered/null-client-while-returning"
+			} else if s.chainedOnQueued(q) {
+				// server/answer.go: a call pipelined on a call that is itself
+				// still queued on an unreturned answer is applied to the
+				// wrong answer (queueCaller basis off by one)
+				sig = "C06/call-not-delivered/pipeline-on-queued-call"
 			}
 			s.violate(sig, fmt.Sprintf("call uid=%x (%s -> %s) was answered %q without reaching the target capability", q.uid, q.class, q.target.RefKey(), m.ExcReason), s.log.Tail(40))
 		}
@@ -70,7 +75,11 @@ func (s *solo) checkPeerQ(q *peerQ) {
 		return
 	}
 	if q.expectLC != nil && o.Cap != q.expectLC.N {
-		s.violate("C06/wrong-target", fmt.Sprintf("call uid=%x addressed to %s was delivered to capability #%d, expected #%d", q.uid, q.target.RefKey(), o.Cap, q.expectLC.N), s.log.Tail(30))
+		sig := "C06/wrong-target"
+		if s.chainedOnQueued(q) {
+			sig = "C06/wrong-target/pipeline-on-queued-call"
+		}
+		s.violate(sig, fmt.Sprintf("call uid=%x addressed to %s was delivered to capability #%d, expected #%d", q.uid, q.target.RefKey(), o.Cap, q.expectLC.N), s.log.Tail(30))
 	}
 	if o.Err != "" {
 		if m.RetKind != "exception" || !strings.Contains(m.ExcReason, o.Err) {
@@ -183,7 +192,11 @@ func (s *solo) checkOrder() {
 			if l, ok := last[o.Stream]; ok && o.Seq <= l {
 				if !s.orderReported[uid] {
 					s.orderReported[uid] = true
-					s.violate("C06/order/"+s.classOf(uid, lastUID[o.Stream]), fmt.Sprintf("capability #%d observed stream %d seq %d (uid %x) after seq %d (uid %x)", lc.N, o.Stream, o.Seq, uid, l, lastUID[o.Stream]), s.log.Tail(60))
+					sig := "C06/order/" + s.classOf(uid, lastUID[o.Stream])
+					if sentAfterReturnReceived(s.log.Snapshot(), uid) {
+						sig = "C06/order/embargo/call-sent-after-return-received"
+					}
+					s.violate(sig, fmt.Sprintf("capability #%d observed stream %d seq %d (uid %x) after seq %d (uid %x)", lc.N, o.Stream, o.Seq, uid, l, lastUID[o.Stream]), s.log.Tail(60))
 				}
 			}
 			last[o.Stream] = o.Seq
@@ -265,7 +278,7 @@ type holder struct {
 
 func (s *solo) unboundLiveHandle() bool {
 	for _, h := range s.w.LiveHandles() {
-		if h.Local == nil && s.handlePexp[h.ID] == nil {
+		if h.Local == nil && s.handlePexp[h.ID] == nil && !s.deadHandle[h.ID] {
 			return true
 		}
 	}
@@ -347,14 +360,21 @@ func (s *solo) localHolders(lc *rpcbench.LocalCap) []holder {
 		}
 	}
 	for _, q := range s.pqAll {
-		o := s.w.Obs(q.uid)
-		if q.boot || o == nil || o.Done {
+		// a call that has not returned yet (running, or queued on an
+		// unreturned answer) keeps its arguments
+		if q.boot || q.returns > 0 {
 			continue
+		}
+		if s.closed {
+			// no Return will come; the arguments live as long as the implementation runs
+			if o := s.w.Obs(q.uid); o == nil || o.Done {
+				continue
+			}
 		}
 		for _, d := range q.argDescs {
 			if d.Kind == "receiverHosted" {
 				if ce := s.cexp[d.ID]; ce != nil && ce.local == lc {
-					hs = append(hs, holder{kind: "param-caps", what: fmt.Sprintf("arguments of running call uid=%x", q.uid)})
+					hs = append(hs, holder{kind: "param-caps", what: fmt.Sprintf("arguments of pending call uid=%x", q.uid)})
 				}
 			}
 		}
@@ -391,15 +411,17 @@ func (s *solo) importHolders(pe *peerExport) []holder {
 	}
 	for _, q := range s.pqAll {
 		o := s.w.Obs(q.uid)
-		if q.boot || o == nil {
+		if q.boot {
 			continue
 		}
-		if !o.Done {
+		if q.returns == 0 && !(s.closed && (o == nil || o.Done)) {
 			for _, d := range q.argDescs {
 				if (d.Kind == "senderHosted" || d.Kind == "senderPromise") && d.ID == pe.id {
-					hs = append(hs, holder{kind: "param-caps", what: fmt.Sprintf("arguments of running call uid=%x", q.uid)})
+					hs = append(hs, holder{kind: "param-caps", what: fmt.Sprintf("arguments of pending call uid=%x", q.uid)})
 				}
 			}
+		}
+		if o == nil || !o.Done {
 			continue
 		}
 		if o.Err == "" && !q.finSent {
@@ -661,5 +683,28 @@ func (s *solo) arrivedWhileReturning(q *peerQ) bool {
 	}
 	// dispatch happens after delivery; the window closes when the Return
 	// has been sent (results ready is set just before)
+	return recvT != 0 && (retT == 0 || recvT < retT)
+}
+
+// chainedOnQueued: q was pipelined on a call t that was itself pipelined on
+// an answer that had not returned when the Conn received t (so t went
+// through a server answer queue and its pipeline caller is a queueCaller).
+func (s *solo) chainedOnQueued(q *peerQ) bool {
+	t := q.pipeOn
+	if t == nil || t.pipeOn == nil {
+		return false
+	}
+	var recvT, retT int64
+	for _, e := range s.log.Snapshot() {
+		if e.Who != "C" || e.Msg == nil {
+			continue
+		}
+		if e.Kind == rpcbench.EvRecv && e.Msg.Which == "call" && e.Msg.Payload != nil && e.Msg.Payload.UID == t.uid && recvT == 0 {
+			recvT = e.T
+		}
+		if e.Kind == rpcbench.EvSendBegin && e.Msg.Which == "return" && e.Msg.ID == t.pipeOn.id && e.T > t.pipeOn.sentT && retT == 0 {
+			retT = e.T
+		}
+	}
 	return recvT != 0 && (retT == 0 || recvT < retT)
 }
